@@ -486,9 +486,29 @@ pub const WITNESSES: [&str; 24] = [
     "(?i:a)(b)\\1",
 ];
 
+/// Unbounded repeats over a body that can match empty (finding class F1): left out of
+/// the exploration as the properties say, probed by these fixed witnesses instead.
+pub const F1_WITNESSES: [&str; 14] = [
+    "(a*)*\\1",
+    "(a*)+\\1",
+    "(a|b*)*\\1",
+    "(?:a?)*?\\b",
+    "(\\b)*",
+    "(\\B)*",
+    "(?:\\b|(a)){2,}",
+    "(a?)*?\\1b",
+    "(?:(a)|b*)*\\1",
+    "(a*?)*\\1",
+    "(?>(a*)*)\\1",
+    "(?=(a*)*)\\1",
+    "((?:a?)*)\\1",
+    "(a*)*+\\1",
+];
+
 pub fn work_list(cfg: &RunCfg) -> WorkList {
     if let Some(p) = &cfg.only_pattern {
-        return WorkList { fixed: vec![Item::new(p, "cmdline")], random_enabled: false, feats: 0, max_depth: 0 };
+        let gen = if cfg.prop == "C01" || cfg.prop == "C04" { "f1-witness" } else { "cmdline" };
+        return WorkList { fixed: vec![Item::new(p, gen)], random_enabled: false, feats: 0, max_depth: 0 };
     }
     crate::props::work_list(cfg)
 }
